@@ -7,21 +7,9 @@
     [m_step] the write path (only the newest container is rewritten), [t_step] the same
     operation on one plain tree, [OBoundary] = commit_patch + create_patch.
 
-    Full statement aimed at (every operation kind, boundaries anywhere):
-
-      Theorem C01_transparent : forall ops,
-        Inv (run_m ops) /\
-        (forall p, vget (run_m ops) p = tget (run_t ops) p) /\
-        viewmap (run_m ops) = run_t ops /\
-        (forall o, (m_step (run_m ops) o).2 = (t_step (run_t ops) o).2).
-
-    Proved below as [C01_transparent_partial] for histories built from create_group,
-    create_dataset, delete, attribute set / delete and boundaries (arbitrary number and
-    position).  Missing: the refinement lemmas for [OCopy] / [OMove] ([m_copy] grafts a
-    snapshot of the source view into the newest container; its lookup characterisation through
-    [rel_snap]/[kmap] and the local-status lemma for the grafted subtree are not proved).
-    For copy and move the correspondence check compares model, specification tree, h5py and
-    IH5 on every generated history instead. *)
+    [C01_transparent] is the full statement: every operation kind (create_group,
+    create_dataset, delete, attribute set / delete, copy — also into the own subtree —, move)
+    with boundaries in any number at arbitrary positions of the history. *)
 From stdpp Require Import gmap strings list.
 From MV Require Import IH5.Overlay IH5.OverlayProofs.
 
@@ -90,34 +78,45 @@ Theorem C01_delete_status : forall (R : stack) (q : path),
 Proof. exact delete_core. Qed.
 Print Assumptions C01_delete_status.
 
-(** One step of any basic operation (a boundary included): same result class, [Sim] kept. *)
-Theorem C01_step_refines_partial : forall R T o,
-  Sim R T -> basic_op o ->
-  Sim (m_step R o).1 (t_step T o).1 /\ (m_step R o).2 = (t_step T o).2.
-Proof. exact step_refines_basic. Qed.
-Print Assumptions C01_step_refines_partial.
+Theorem C01_copy_refines : forall R T (src dst : path),
+  Sim R T -> is_node_path src = true -> is_node_path dst = true ->
+  refines (m_copy R src dst) (t_copy T src dst).
+Proof. exact copy_refines. Qed.
+Print Assumptions C01_copy_refines.
 
-(** Transparency for every finite history of basic operations with boundaries at arbitrary
-    positions (they are elements of [ops]; the specification ignores them): the invariant
-    holds, the view equals the plain tree, and every further operation succeeds or fails
-    exactly as on the plain tree. *)
-Theorem C01_transparent_partial : forall ops,
-  Forall basic_op ops ->
+Theorem C01_move_refines : forall R T (src dst : path),
+  Sim R T -> is_node_path src = true -> is_node_path dst = true ->
+  refines (m_move R src dst) (t_move T src dst).
+Proof. exact move_refines. Qed.
+Print Assumptions C01_move_refines.
+
+(** One step of any operation (a boundary included): same result class, [Sim] kept. *)
+Theorem C01_step_refines : forall R T o,
+  Sim R T ->
+  Sim (m_step R o).1 (t_step T o).1 /\ (m_step R o).2 = (t_step T o).2.
+Proof. exact step_refines. Qed.
+Print Assumptions C01_step_refines.
+
+(** Transparency for every finite history with boundaries at arbitrary positions (they are
+    elements of [ops]; the specification ignores them): the invariant holds, the view equals
+    the plain tree at every path and as a finite map, and every further operation succeeds or
+    fails exactly as on the plain tree. *)
+Theorem C01_transparent : forall ops,
   Inv (run_m ops) /\
   (forall p, vget (run_m ops) p = tget (run_t ops) p) /\
   viewmap (run_m ops) = run_t ops /\
-  (forall o, basic_op o -> (m_step (run_m ops) o).2 = (t_step (run_t ops) o).2).
-Proof. exact transparent_basic. Qed.
-Print Assumptions C01_transparent_partial.
+  (forall o, (m_step (run_m ops) o).2 = (t_step (run_t ops) o).2).
+Proof. exact transparent. Qed.
+Print Assumptions C01_transparent.
 
 (** Two histories that differ only in where (and how many) boundaries are placed give the
     same view and the same outcome for any next operation. *)
-Theorem C01_boundaries_unobservable_partial : forall ops1 ops2,
-  Forall basic_op ops1 -> Forall basic_op ops2 -> strip_bnd ops1 = strip_bnd ops2 ->
+Theorem C01_boundaries_unobservable : forall ops1 ops2,
+  strip_bnd ops1 = strip_bnd ops2 ->
   viewmap (run_m ops1) = viewmap (run_m ops2) /\
-  (forall o, basic_op o -> (m_step (run_m ops1) o).2 = (m_step (run_m ops2) o).2).
-Proof. exact boundaries_unobservable_basic. Qed.
-Print Assumptions C01_boundaries_unobservable_partial.
+  (forall o, (m_step (run_m ops1) o).2 = (m_step (run_m ops2) o).2).
+Proof. exact boundaries_unobservable. Qed.
+Print Assumptions C01_boundaries_unobservable.
 
 (** The child-resolution rule of the pinned code (virtual flag never reset, [scan_pinned]) is
     not transparent: replaced content comes back. *)
